@@ -425,11 +425,20 @@ def correspond(ctx) -> Corr:
     scns = load_corpus() + gen_scenarios(ctx.rng, ctx.tier)
     _evaluate(ctx, scns, corr)
     corr.extra['scenarios'] = len(scns)
+    # component level: relay_events driven in the state "normal exit with events still in the pipe" x slow plugin
+    # (Relay/Model.v: ChildExit with a non-empty pipe, then Timeout) -- harness/props/c10_component.py
+    from . import c10_component
+    vs, st = c10_component.run(ctx)
+    corr.violations += vs
+    corr.evaluations += st['component_scenarios']
+    corr.extra.update(st)
     return corr
 
 
 def search(ctx, broken) -> list:
     corr = Corr()
+    from . import c10_component
+    corr.violations += c10_component.run(ctx, 'thorough')[0]
     rng = ctx.rng
     scns = gen_scenarios(rng, 'quick')
     for _ in range(16):
@@ -442,6 +451,16 @@ def search(ctx, broken) -> list:
 
 def replay(ctx, path: Path) -> int:
     j = json.loads(Path(path).read_text())
+    if 'component_scenario' in j:
+        from . import c10_component
+        r = c10_component.run_one(j['component_scenario'])
+        print('scenario:', j['component_scenario'])
+        print('log:', r.get('log', r))
+        bad = c10_component.oracle(j['component_scenario'], r)
+        for sg, what in bad:
+            print('FAILS:', sg, what)
+        print('replay verdict:', 'property violated' if bad else 'property holds on this input')
+        return 1 if bad else 0
     s = dict(j['scenario'])
     refs = reference_streams([s['ref_src']])
     o = run_many([s])[0]
